@@ -50,7 +50,8 @@ def gen_cases(rng, tier, info):
     for j in range(12 if tier == "quick" else 200):
         tables = {"T": ([mk("K", "i16", pk=True), mk("V", ("str", 8), null=True)], [[1, "a"], [2, "shared"], [5, None]]),
                   "U": ([mk("A", ("str", 4), pk=True)], [["x"], ["shared"]])}
-        clsid, entries, _ = msienc.encode_db(rng, j % 3, 65001, tables, [(2, 30, "T"), (4, 30, "Ann")], {"Bin": [1, 2, 3]},
+        summ = [(2, 30, "T"), (4, 30, "Ann")] + ([(0, 0, None)] if j % 2 == 0 else [])     # every other file has no code page property
+        clsid, entries, _ = msienc.encode_db(rng, j % 3, 65001, tables, summ, {"Bin": [1, 2, 3]},
                                              long_refs=(j % 2 == 1), holes=0.3, dups=0.3, overcount=0.3, stale=0.5,
                                              validation=(j % 4 != 3), layout=["plain", "shuffled", "gaps"][j % 3])
         cmds = [msienc.enc_open_raw(clsid, entries)]
